@@ -216,7 +216,7 @@ def run(tier):
     if thorough:
         c3 = cfg(ck, "cow3.cfg", "SPECIFICATION Spec\nCONSTANTS\n  MaxLen = 4\n  MaxSize = 3\nINVARIANT Agree\n"
                                  "CONSTRAINT EmitScripts\nCHECK_DEADLOCK FALSE\n")
-        r3 = vlib.run_tlc("CowVector", c3, workers=8, timeout=3000, simulate=4000, depth=5)   # (per worker; 40000 exhausted the memory of the driver)
+        r3 = vlib.run_tlc("CowVector", c3, workers=8, timeout=3000, simulate=300, depth=5)   # (per worker; 3.2 million histories with 4000: 33 GB in the driver)
         scripts = scripts + r3.emitted
         states += r3.generated
     obs = replay(ck, exe, "cow", scripts, "cow")
